@@ -172,6 +172,10 @@ fn worker_main(args: &Args) -> i32 {
         selftest: false,
     };
     let max_cases: u64 = args.tier.pick(400_000, 40_000_000);
+    let cfg = WorkerCfg {
+        threads: (cfg.threads * crate::sink::verif_threads()).div_ceil(16).max(1),
+        ..cfg
+    };
     if let Some(c) = args.extra.get("only-case").and_then(|c| c.parse::<u64>().ok()) {
         run_case(&env, &col, c, true);
         let v = col.to_json();
@@ -524,17 +528,20 @@ fn run_needs_split(req: &Req, block: u64, m: u64) -> bool {
 ///  3. `empty-range-out-of-order`: only empty ranges are out of order (what the legacy blob decoder
 ///     submits for null blobs: `1..1` between real positions); `empty-range`: ascending with empties;
 ///  4. `overlapping-ranges`, `sorted-disjoint-ranges[-after-split]`.
-fn class_of(req: &Req, block: u64, m: u64, file_len: u64) -> String {
-    let s = analyze(req, block, m, file_len);
+fn nonempty_out_of_order(req: &Req) -> bool {
     let mut max_start = 0u64;
-    let mut nonempty_out_of_order = false;
     for r in req {
         if r.end > r.start && r.start < max_start {
-            nonempty_out_of_order = true;
+            return true;
         }
         max_start = max_start.max(r.start);
     }
-    if nonempty_out_of_order {
+    false
+}
+
+fn class_of(req: &Req, block: u64, m: u64, file_len: u64) -> String {
+    let s = analyze(req, block, m, file_len);
+    if nonempty_out_of_order(req) {
         return "unsorted-ranges".to_string();
     }
     let split = run_needs_split(req, block, m);
@@ -646,7 +653,7 @@ async fn submit_and_judge(via: &Via, data: &Bytes, req: &Req, prio: u64, corrupt
         Ok(f) => f,
         Err(p) => return Symptom::Panic(panic_msg(p)),
     };
-    let res = tokio::time::timeout(Duration::from_secs(20), AssertUnwindSafe(fut).catch_unwind()).await;
+    let res = tokio::time::timeout(Duration::from_secs(120), AssertUnwindSafe(fut).catch_unwind()).await;
     match res {
         Err(_) => Symptom::Hang,
         Ok(Err(p)) => Symptom::Panic(panic_msg(p)),
@@ -794,8 +801,17 @@ async fn boundary_case(env: &Env, col: &Collector, idx: u64, rng: &mut Rng) {
             }
             continue;
         }
+        if let Symptom::Error(msg) = &sym {
+            // since the fix in /repo a list whose non-empty ranges are not sorted by start offset is
+            // rejected with InvalidInput: a cleanly rejected input (no buffers were returned)
+            if nonempty_out_of_order(&req) && msg.contains("must be sorted by start offset") {
+                col.rejected();
+                col.count("boundary.unsorted_lists_rejected", 1);
+                continue;
+            }
+        }
         if sym == Symptom::Hang {
-            col.inconclusive(&format!("boundary case {idx}: 20 s watchdog on an ungated store, ranges {:?}", req));
+            col.inconclusive(&format!("boundary case {idx}: 120 s watchdog on an ungated store, ranges {:?}", req));
             continue;
         }
         // a refuting observation: minimise and classify
@@ -1384,12 +1400,12 @@ fn stress_case(env: &Env, col: &Collector, idx: u64, rng: &mut Rng) {
     let env2 = env.clone();
     let out = rt.block_on(async move {
         let mut rng = Rng::new(seed);
-        tokio::time::timeout(Duration::from_secs(40), stress_inner(&env2, idx, &mut rng)).await
+        tokio::time::timeout(Duration::from_secs(180), stress_inner(&env2, idx, &mut rng)).await
     });
     qmon::attach(None);
     match out {
         Err(_) => {
-            col.inconclusive(&format!("stress case {idx}: 40 s wall-clock watchdog fired (possible hang; not decidable here)"));
+            col.inconclusive(&format!("stress case {idx}: 180 s wall-clock watchdog fired (possible hang; not decidable here)"));
             col.count("stress.watchdog", 1);
             rt.shutdown_background();
             return;
